@@ -207,7 +207,7 @@ func Project(r *rand.Rand, t *T, mode int) *T {
 			k := 1 + r.IntN(2)
 			for j := 0; j < k; j++ {
 				at := r.IntN(len(n.Fields) + 1)
-				add := &F{Go: fmt.Sprintf("A%d", j), JSON: fmt.Sprintf("zz_added_%d", j), T: genType(r, TypeOpts{MaxDepth: 2, NoExcluded: true}, 1)}
+				add := &F{Go: fmt.Sprintf("A%d", j), JSON: fmt.Sprintf("zz_added_%d", j), T: genType(r, TypeOpts{MaxDepth: 2, MaxFields: 3, NoExcluded: true}, 1)}
 				n.Fields = append(n.Fields[:at:at], append([]*F{add}, n.Fields[at:]...)...)
 			}
 		}
